@@ -108,4 +108,41 @@ mod verif_k5 {
         std::mem::forget(k);
         std::mem::forget(string);
     }
+
+    fn no_schema(_name: Option<&String>, _schema: &schemars::schema::Schema) -> openapiv3::ReferenceOr<openapiv3::Schema> {
+        // never reached in the harnesses below (no item / property schemas are present); the stub only keeps
+        // CBMC from unfolding the mutual recursion j2oas_array -> j2oas_schema -> j2oas_schema_object -> ..
+        kani::assume(false);
+        loop {}
+    }
+
+    //@ harness k5_array_limits property=C08 class=complete :: j2oas_array keeps minItems / maxItems (all u32, each optional) and uniqueItems (absent == false); `items` absent stays absent (recursion into item schemas stubbed out: not exercised)
+    #[kani::proof]
+    #[kani::unwind(3)]
+    #[kani::stub(j2oas_schema, no_schema)]
+    fn k5_array_limits() {
+        let (hmin, hmax, huniq, uniq): (bool, bool, bool, bool) = kani::any();
+        let (mn, mx): (u32, u32) = kani::any();
+        let av = schemars::schema::ArrayValidation {
+            items: None,
+            additional_items: None,
+            max_items: if hmax { Some(mx) } else { None },
+            min_items: if hmin { Some(mn) } else { None },
+            unique_items: if huniq { Some(uniq) } else { None },
+            contains: None,
+        };
+        let array = Some(Box::new(av));
+        let k = j2oas_array(&array);
+        match &k {
+            openapiv3::SchemaKind::Type(openapiv3::Type::Array(at)) => {
+                assert!(at.min_items == if hmin { Some(mn as usize) } else { None });
+                assert!(at.max_items == if hmax { Some(mx as usize) } else { None });
+                assert!(at.unique_items == (huniq && uniq));
+                assert!(at.items.is_none());
+            }
+            _ => assert!(false),
+        }
+        std::mem::forget(k);
+        std::mem::forget(array);
+    }
 }
